@@ -273,7 +273,7 @@ def c07(tier, seed):
     return dict(stages=[Stage('endtoend', mc=('EndToEndMC', 'EndToEnd_%s.cfg' % t), emit=('EndToEndMC', 'EndToEnd_%s_emit.cfg' % t),
                               driver='endtoend', trace=('EndToEndTrace', 'EndToEndTrace.cfg'),
                               deviations={'UuidIds': 'EndToEndTrace_dev_UuidIds.cfg'},
-                              nontrivial=lambda tr: len(tr['ev']) >= 3)] + amqp_stages(tier),
+                              nontrivial=lambda tr: len(tr['ev']) >= 3), twins_stage(t)] + amqp_stages(tier),
                 rule='(extension: the aio_pika client backend and server integration over an in-memory broker - every delivery order of '
                      'requests and replies for <= 2 concurrent calls / notifications on one client, shared or exclusive result queues, stray '
                      'replies, close() while calls wait; AmqpRpc.tla) client programs in every notation (call, __call__, proxy attribute, hand-built send, notify, batch add / '
